@@ -60,34 +60,16 @@ static inline unsigned short symChar()
     return c;
 #endif
 }
-struct Sym {
-    unsigned len; unsigned short c[3]; QString q;
-    void make(unsigned minlen = 0)
-    {
-        len = vp_u32(); vp_assume(len >= minlen && len <= MAXLEN);
-        for (int k = 0; k < 3; k++) c[k] = k < MAXLEN ? symChar() : 0;
-        vp_c20_string(&q, len, c[0], c[1], c[2]);
-    }
-    void lit(const char *s)   // concrete text (<= 3 units used for ordering; longer texts only via litLong)
-    {
-        len = 0; for (int k = 0; k < 3; k++) { c[k] = 0; }
-        for (int k = 0; k < 3 && s[k]; k++) { c[k] = (unsigned char)s[k]; len++; }
-        vp_c20_string(&q, len, c[0], c[1], c[2]);
-    }
-};
-// i;octet collation on the harness-side copy: code unit by code unit, a proper prefix sorts first
-static inline int symCmp(const Sym &a, const Sym &b)
-{
-    for (unsigned k = 0; k < MAXLEN; k++) {
-        if (k >= a.len || k >= b.len) break;
-        if (a.c[k] != b.c[k]) return a.c[k] < b.c[k] ? -1 : 1;
-    }
-    return a.len == b.len ? 0 : (a.len < b.len ? -1 : 1);
-}
-static inline bool symEq(const Sym &a, const Sym &b) { return symCmp(a, b) == 0; }
-// plain value copy used by the reference (no QString involved)
+// a short text: harness-side plain copy of the code units (the reference works on these, never on QString)
 struct Txt { unsigned len; unsigned short c[3]; };
-static inline Txt txt(const Sym &s) { Txt t; t.len = s.len; for (int k = 0; k < 3; k++) t.c[k] = s.c[k]; return t; }
+static inline Txt symTxt(unsigned minlen = 0)
+{
+    Txt t; t.len = vp_u32(); vp_assume(t.len >= minlen && t.len <= MAXLEN);
+    t.c[0] = MAXLEN > 0 ? symChar() : 0; t.c[1] = MAXLEN > 1 ? symChar() : 0; t.c[2] = MAXLEN > 2 ? symChar() : 0;
+    return t;
+}
+static inline QString qstr(const Txt &t) { QString q; vp_c20_string(&q, t.len, t.c[0], t.c[1], t.c[2]); return q; }
+// i;octet collation: code unit by code unit, a proper prefix sorts first (all units are ASCII here)
 static inline int txtCmp(const Txt &a, const Txt &b)
 {
     for (unsigned k = 0; k < MAXLEN; k++) {
@@ -108,10 +90,10 @@ static inline int idCmp(const IdT &a, const IdT &b)
     for (int k = 0; k < 4; k++) { int c = txtCmp(a.f[k], b.f[k]); if (c) return c; }
     return 0;
 }
-static inline void ref_identities(Ref &r, Sym ids[][4], unsigned nid)
+static inline void ref_identities(Ref &r, const IdT ids[], unsigned nid)
 {
     IdT v[NID];
-    for (unsigned i = 0; i < NID; i++) for (int k = 0; k < 4; k++) v[i].f[k] = txt(ids[i][k]);
+    for (unsigned i = 0; i < NID; i++) v[i] = ids[i];
     for (unsigned pass = 0; pass + 1 < NID; pass++)
         for (unsigned j = 0; j + 1 < NID; j++)
             if (j + 1 < nid && idCmp(v[j + 1], v[j]) < 0) { IdT t = v[j]; v[j] = v[j + 1]; v[j + 1] = t; }
@@ -127,10 +109,10 @@ template<unsigned N> static inline void txtSort(Txt (&v)[N], unsigned n)
             if (j + 1 < n && txtCmp(v[j + 1], v[j]) < 0) { Txt t = v[j]; v[j] = v[j + 1]; v[j + 1] = t; }
 }
 // step 4-5: features sorted, duplicates dropped, each followed by '<'
-static inline void ref_features(Ref &r, Sym fs[], unsigned nf)
+static inline void ref_features(Ref &r, const Txt fs[], unsigned nf)
 {
     Txt v[NFEAT];
-    for (unsigned i = 0; i < NFEAT; i++) v[i] = txt(fs[i]);
+    for (unsigned i = 0; i < NFEAT; i++) v[i] = fs[i];
     txtSort(v, nf);
     for (unsigned i = 0; i < NFEAT; i++) if (i < nf) {
         if (i > 0 && txtCmp(v[i], v[i - 1]) == 0) continue;
